@@ -8,7 +8,8 @@
 (*   t.ups[u]           per upstream connection: sent, end, recv,          *)
 (*                      recvIntact (what it read is a prefix of the        *)
 (*                      client's stream), sawEOF, closedAfterReturn,       *)
-(*                      drained (it kept reading until EOF/error)          *)
+(*                      drained (it kept reading until EOF/error),         *)
+(*                      abandoned (opened by a dial attempt given up)      *)
 (*   t.crecv[u]         n, intact: what the client read of upstream u's    *)
 (*                      bytes is a prefix of what u sent                   *)
 (*   t.ceof             the client saw end of stream                       *)
@@ -17,7 +18,9 @@
 (***************************************************************************)
 EXTENDS Integers, Sequences, FiniteSets, TLC
 
-U(t) == DOMAIN t.ups
+\* connections opened by a dial attempt that was given up (a later peer of the same upstream refused) carry no
+\* data; they only have to be closed (P5)
+U(t) == { u \in DOMAIN t.ups : ~t.ups[u].abandoned }
 NoReset(t) == t.cend # "rst" /\ \A u \in U(t) : t.ups[u].end # "rst"
 
 \* P1: each upstream reads the client's stream exactly once, in order, from its first
@@ -34,7 +37,7 @@ P3(t) == (t.cend = "fin" /\ NoReset(t)) => \A u \in U(t) : t.ups[u].drained => t
 \* P4: when every upstream has finished sending, the client observes end of stream
 P4(t) == (NoReset(t) /\ t.cend = "fin" /\ t.cdrained) => t.ceof
 \* P5: then the handler returns and every upstream connection it opened is closed
-P5(t) == t.returned /\ \A u \in U(t) : t.ups[u].closedAfterReturn
+P5(t) == t.returned /\ \A u \in DOMAIN t.ups : t.ups[u].closedAfterReturn
 
 ProxyViolations(t) ==
   (IF P1(t) THEN {} ELSE {"P1 an upstream did not receive the client's stream exactly once in order"})
